@@ -152,6 +152,10 @@ FLOPS = {
            "ignores": [None, "clk", ["clk"]]},
     "FDR": {"ins": ["CK", "RD", "D"], "outs": ["Q", "QN"], "d": "D", "q": "Q", "clk": "CK", "rst": "RD",
             "ignores": [None, "CK", "RD", "QN", ["CK", "RD", "QN"]]},
+    # a scan flop unrolled along its scan path (SD -> Q); its functional data pin D is a suffix of the name SD, so
+    # "ignore D" must not touch SD
+    "SDFF": {"ins": ["CLK", "D", "SD"], "outs": ["Q"], "d": "SD", "q": "Q", "clk": "CLK", "rst": "D",
+             "ignores": [None, "D", ["D"], ["CLK", "D"]]},
 }
 
 
@@ -159,10 +163,13 @@ def seq_corpus(tier):
     """(desc, flop type, flop instance names).  q nets are buffers named q0/q1 driven by the flop."""
     full = tier != "quick"
     nyield = 0
-    for ftype in ("ff", "FDR"):
+    for ftype in ("ff", "FDR", "SDFF"):
         F = FLOPS[ftype]
-        for nin, nf, G, types, ar in ((1, 1, 2, space.ALL_GATES, 2), (1, 2, 1, space.ALL_GATES, 3), (2, 1, 1, space.ALL_GATES, 3)) + (
-                ((1, 2, 2, ("and", "xor", "not", "nor"), 2),) if full else ()):
+        shapes = ((1, 1, 2, space.ALL_GATES, 2), (1, 2, 1, space.ALL_GATES, 3), (2, 1, 1, space.ALL_GATES, 3)) + (
+                ((1, 2, 2, ("and", "xor", "not", "nor"), 2),) if full else ())
+        if ftype == "SDFF" and not full:
+            shapes = ((1, 2, 1, ("and", "xor", "not", "nor"), 2),)
+        for nin, nf, G, types, ar in shapes:
             base = nin + nf
             for gates in space.circuits(base, G, types=types, max_arity=ar, min_gates=G):
                 nodes_n = base + G
